@@ -9,7 +9,7 @@ trap 'rm -rf "$d"' EXIT
 cp -r /repo/annet /repo/annet_generators /repo/tests "$d"/ 2>/dev/null
 ( cd "$d" && patch -p1 -s < "$patch_file" ) || { echo "patch failed"; exit 3; }
 cd /verif
-PYTHONPATH="$d" VF_ANNET_ROOT="$d" "$@"
+PYTHONPATH="$d" VF_ANNET_ROOT="$d" VF_EVIDENCE_DIR="$d/evidence" VF_REPLAY_DIR="${VF_REPLAY_DIR:-/verif/replays}" "$@"
 rc=$?
 echo "mutrun rc=$rc"
 exit $rc
